@@ -141,7 +141,7 @@ NlUsed == LET F[i \in 0..Len(hist)] == IF i = 0 THEN 0 ELSE F[i-1] + hist[i].nl 
 CommentTokens ==
   CASE Mode = "comments" -> {Tk("cmt", "c1", 0), Tk("cmt", "", 0)}
                             (* comment texts that end / begin with the characters of the comment brackets *)
-                            \cup (IF sid = 18 THEN {Tk("cmt", "c *", 0), Tk("cmt", "/ c", 0)} ELSE {})
+                            \cup (IF sid = 18 THEN {Tk("cmt", "c *", 0), Tk("cmt", "/ c", 0), Tk("cmt", "c \\", 0)} ELSE {})
     [] Mode = "ignorecmt" -> {Tk("cmt", "c1", 0)}
     [] Mode = "lines"    -> {Tk("cmt", "c1", 0)} \cup
                             (IF NlUsed < NlBudget THEN {[Tk("cmt", "c1\nc2", 0) EXCEPT !.nlin = 1]} ELSE {})
